@@ -12,8 +12,19 @@
                     (validated against CPython on every run of the harness, see harness/c17.py)
      gunzip_gzip  : forall b, gunzip (gzip b) = b.
    The models h_asgi_app / h_handler_get describe the REPAIRED sources (fixes/C17-*.diff);
-   h_asgi_app_orig / h_handler_get_orig are the pinned sources, refuted below. *)
-From V Require Import lib.PyBase model.Http model.HttpSpec proofs.HttpProofs.
+   h_asgi_app_orig / h_handler_get_orig are the pinned sources, refuted below.
+
+   "The registry restricted to the name[] values": model/HttpReg.v gives the symbolic body its meaning over
+   the registry model of C06/C07 (model/Registry.v: collect, restricted = RestrictedRegistry.collect) and the
+   C17_body_* theorems say that the families behind the body of each front-end are the FILTER of the full
+   collection (RegistrySpec.filter_collection): each family at most once, exactly the requested sample
+   names, whatever the order / repetition of the name[] values and however many of them one collector
+   owns.  Hypotheses: Inv r (holds of every registry reached by register / unregister / set_target_info
+   calls, C17_built_registry_inv) and well_described (a collector yields only sample names it claimed;
+   without it a restricted registry can not find the collector at all - C07). *)
+From V Require Import lib.PyBase model.Registry model.RegistrySpec model.Http model.HttpSpec model.HttpReg
+  proofs.HttpProofs proofs.HttpRegProofs.
+From Coq Require Import Permutation.
 Open Scope N_scope.
 
 (* ---- the three string functions mean what the specification says (for all strings) *)
@@ -204,6 +215,95 @@ Theorem C17_handler_orig_partial : forall lower parse_qs urlquery (accepts aencs
 Proof. exact handler_orig_agrees_single. Qed.
 Print Assumptions C17_handler_orig_partial.
 
+(* ---- the body is the exposition of the FILTER of the full collection: for one registry r (collectors cenv),
+        the families handed to the encoder by each front-end are, as a multiset (RestrictedRegistry iterates
+        over a Python set of collectors), the full collection cut down to the name[] values - and the full
+        collection itself, in order, when there is no name[] value *)
+Theorem C17_body_is_filter : forall cenv r, Inv r -> (forall c, registered r c -> well_described cenv r c) ->
+  forall lower parse_qs urlquery dis (env : assoc str str) (p : str)
+         (hdrs : list (str * str)) (q : option str) (accepts aencs : list str) (path : str),
+  d_find str_eqb env H_ENV_METHOD = Some H_GET ->
+  d_find str_eqb env H_ENV_PATH = Some p -> p <> H_FAVICON ->
+  (exists resp, h_wsgi_app lower parse_qs dis env = Ok resp
+     /\ Permutation (h_body_families cenv r (h_body resp))
+          (restricted_to (d_find str_eqb (parse_qs (h_or_empty (d_find str_eqb env H_ENV_QUERY))) H_NAME_KEY)
+             (collect cenv r)))
+  /\ (exists code hs b, h_asgi_app lower parse_qs dis hdrs q true = [HA_start code hs; HA_body b]
+     /\ Permutation (h_body_families cenv r b)
+          (restricted_to (d_find str_eqb (parse_qs (h_or_empty q)) H_NAME_KEY) (collect cenv r)))
+  /\ Permutation (h_body_families cenv r (hh_body (h_handler_get lower parse_qs urlquery accepts aencs path)))
+       (restricted_to (d_find str_eqb (parse_qs (urlquery path)) H_NAME_KEY) (collect cenv r)).
+Proof. exact frontends_serve_filter. Qed.
+Print Assumptions C17_body_is_filter.
+
+Theorem C17_body_unrestricted_exact : forall cenv r, h_collected cenv r None = collect cenv r.
+Proof. exact collected_unrestricted. Qed.
+Print Assumptions C17_body_unrestricted_exact.
+
+(* one request: the three front-ends hand the SAME family list to the encoder *)
+Theorem C17_frontends_same_families : forall cenv r lower parse_qs urlquery dis (env : assoc str str)
+    (hdrs : list (str * str)) (q : option str) (accepts aencs : list str) (path p : str),
+  d_find str_eqb env H_ENV_METHOD = Some H_GET ->
+  d_find str_eqb env H_ENV_PATH = Some p -> p <> H_FAVICON ->
+  d_find str_eqb env H_ENV_QUERY = q ->
+  urlquery path = h_or_empty q ->
+  exists resp code hs b,
+    h_wsgi_app lower parse_qs dis env = Ok resp
+    /\ h_asgi_app lower parse_qs dis hdrs q true = [HA_start code hs; HA_body b]
+    /\ h_body_families cenv r b = h_body_families cenv r (h_body resp)
+    /\ h_body_families cenv r (hh_body (h_handler_get lower parse_qs urlquery accepts aencs path))
+       = h_body_families cenv r (h_body resp).
+Proof. exact frontends_same_families. Qed.
+Print Assumptions C17_frontends_same_families.
+
+(* each family at most once - however many of the requested names one collector owns *)
+Theorem C17_body_family_once : forall cenv r, Inv r -> (forall c, registered r c -> well_described cenv r c) ->
+  forall names,
+  (NoDup (map f_name (collect cenv r)) -> NoDup (map f_name (h_collected cenv r names)))
+  /\ (length (h_collected cenv r names) <= length (collect cenv r))%nat.
+Proof. exact body_family_once. Qed.
+Print Assumptions C17_body_family_once.
+
+(* exactly the requested sample names: nothing else is served, nothing requested is lost *)
+Theorem C17_body_requested_samples : forall cenv r, Inv r -> (forall c, registered r c -> well_described cenv r c) ->
+  forall ns,
+  (forall g s, In g (h_collected cenv r (Some ns)) -> In s (f_samples g) -> In (s_name s) ns)
+  /\ (forall f s, In f (collect cenv r) -> In s (f_samples f) -> In (s_name s) ns ->
+        exists g, In g (h_collected cenv r (Some ns)) /\ f_name g = f_name f /\ In s (f_samples g)).
+Proof. exact body_requested_samples. Qed.
+Print Assumptions C17_body_requested_samples.
+
+(* the name[] values are a set: order and repetition do not matter *)
+Theorem C17_body_name_set : forall cenv r, Inv r -> (forall c, registered r c -> well_described cenv r c) ->
+  forall ns ns', (forall n, In n ns <-> In n ns') ->
+  Permutation (h_collected cenv r (Some ns)) (h_collected cenv r (Some ns')).
+Proof. exact collected_name_set. Qed.
+Print Assumptions C17_body_name_set.
+
+(* what the filter is, family by family *)
+Theorem C17_filter_spec : forall ns fams g,
+  In g (restricted_to (Some ns) fams) <->
+  exists f, In f fams /\ filter (keep ns) (f_samples f) <> []
+    /\ g = mk_family (f_name f) (f_typ f) (f_help f) (f_unit f) (filter (keep ns) (f_samples f)).
+Proof. exact filter_collection_in. Qed.
+Print Assumptions C17_filter_spec.
+
+(* every registry built by CollectorRegistry(target_info=l) + register calls satisfies Inv *)
+Theorem C17_built_registry_inv : forall cenv a l cs, Inv (h_build_registry cenv a l cs).
+Proof. exact build_registry_inv. Qed.
+Print Assumptions C17_built_registry_inv.
+
+(* header and body fit together, over families: the client recovers the chosen encoder's exposition of the
+   collected families *)
+Theorem C17_client_roundtrip_families : forall cenv (encode : hfmt -> list family -> list N) (gzip gunzip : list N -> list N),
+  (forall b, gunzip (gzip b) = b) ->
+  forall r lower accept aenc params dis,
+    let resp := h_bake_output lower accept aenc params dis in
+    client_decode gunzip (h_header resp H_CONTENT_ENCODING) (h_body_bytes_reg cenv encode gzip r (h_body resp))
+    = encode (fst (h_choose_encoder accept)) (h_collected cenv r (d_find str_eqb params H_NAME_KEY)).
+Proof. exact bake_client_roundtrip_reg. Qed.
+Print Assumptions C17_client_roundtrip_families.
+
 (* ---- non-vacuity *)
 (* the hypothesis on lower is satisfiable (ASCII lower-casing meets it) *)
 Example C17_lower_gzip_satisfiable : forall s, ascii_lower s = H_GZIP <-> h_ci_gzip s = true.
@@ -236,3 +336,16 @@ Example C17_example_methods :
      /\ h_status_code (h_status r) = 200 /\ h_header r H_ALLOW = Some H_ALLOW_VALUE /\ h_collects r = false)
   /\ (exists r, h_wsgi_app ascii_lower wit_parse_qs false (env (s2l "get")) = Ok r /\ h_status_code (h_status r) = 405).
 Proof. vm_compute. repeat split; eexists; repeat split. Qed.
+
+(* a registry with a summary (s_count, s_sum) and a counter (c_total), well described:
+   name[]=s_sum&name[]=s_count&name[]=s_sum -> the summary family ONCE with both samples;
+   name[]=s_sum&name[]=c_total&name[]=s_count -> both families once each; name[]=s_sum -> one sample *)
+Example C17_example_restricted :
+  (forall c, registered exr_reg c -> well_described exr_env exr_reg c)
+  /\ h_collected exr_env exr_reg (Some [exr_s_sum; exr_s_count; exr_s_sum]) = [exr_summary]
+  /\ h_collected exr_env exr_reg (Some [exr_s_sum; exr_c_total; exr_s_count])
+     = [mk_family exr_s TSummary [104] [] [mk_sample exr_s_count [] 2; mk_sample exr_s_sum [] 3]; exr_counter]
+  /\ h_collected exr_env exr_reg (Some [exr_s_sum])
+     = [mk_family exr_s TSummary [104] [] [mk_sample exr_s_sum [] 3]]
+  /\ h_collected exr_env exr_reg None = [exr_summary; exr_counter].
+Proof. split; [exact exr_well_described|exact exr_example]. Qed.
